@@ -1,1 +1,78 @@
-From C08 Require Import ModelMap Model ModelSpec.
+(* C08/Properties.v — property C08: runtime storage transactions are transparent and roll back
+   exactly.  Only statements, each closed by `exact <lemma>`, with Print Assumptions beneath.
+
+   run cfg_fixed  : the model of TrieState/storageDiff after fixes/C08-1..5 (Model.v)
+   srun           : Substrate's overlay semantics as a stack of complete states (ModelSpec.v)
+   agrees         : equal reads (get, next-key, entries, child get/next-key/key listing; error
+                    returns of child reads = "no such child"), and, once all transactions are
+                    closed, equal committed contents whose root is the root of those contents
+   guard_free     : no operation of the history lies in a known-finding class (ModelGuards.v) *)
+From Common Require Import Bytes.
+From C08 Require Import ModelMap Model ModelSpec ModelGuards ProofsTx ProofsMain ProofsWitness.
+Local Open Scope N_scope.
+
+(* Full statement (checked by correspondence and the refutations below, proved for the
+   main-storage operations):
+     forall ops, guard_free cfg_fixed ops = true ->
+       agrees (run cfg_fixed ops ts_init) (srun ops ss_init) ops. *)
+
+(* Every history of main-storage operations (put, get, delete, prefix clear with and without
+   limit, next-key, entries) interleaved with start/commit/rollback at any nesting depth, outside
+   the finding classes: every read observes what the overlay semantics prescribe, and the
+   committed contents (and root) are the specification's. *)
+Theorem C08_reads_main_partial : forall ops,
+  forallb main_op ops = true -> guard_free cfg_fixed ops = true ->
+  agrees (run cfg_fixed ops ts_init) (srun ops ss_init) ops.
+Proof. exact reads_main. Qed.
+Print Assumptions C08_reads_main_partial.
+
+(* A rollback restores exactly the state at the matching start: all operations (main and child
+   storage), any state, any well-nested body, pinned and repaired code alike. *)
+Theorem C08_rollback : forall cf body s, balanced 0 body = true ->
+  snd (run cf (OStart :: body ++ [ORollback]) s) = s.
+Proof. exact rollback_exact. Qed.
+Print Assumptions C08_rollback.
+
+(* non-vacuity: a guard-free history with nested transactions, a rollback, a key equal to a
+   cleared prefix, a limited clear and next-key; the final contents are not empty *)
+Example C08_nonvacuous :
+  let ops := [OPut k11 v1; OPut k1122 v2; OPut k22 v3; OStart; OClearPrefix k1122; OPut k112233 v1;
+              OStart; ODel k22; ONext k11; ORollback; OGet k22; OClearPrefixLimit k22 3; ONext k11;
+              OCommit; OEntries] in
+  forallb main_op ops = true /\ guard_free cfg_fixed ops = true /\ balanced 0 [ODel k22; ONext k11] = true /\
+  fst (run cfg_fixed ops ts_init) =
+    [RUnit; RUnit; RUnit; RUnit; RUnit; RUnit; RUnit; RUnit; RVal (Some k112233); RUnit;
+     RVal (Some v3); RCount 1 false; RVal (Some k112233); RUnit; REntries [(k11, v1); (k112233, v1)]].
+Proof. vm_compute. repeat split; reflexivity. Qed.
+
+(* The pinned code (cfg_pinned) violates the property; one witness per repaired defect *)
+Theorem C08_pinned_refuted :
+  ~ agrees (run cfg_pinned w_prefix_key ts_init) (srun w_prefix_key ss_init) w_prefix_key /\
+  ~ agrees (run cfg_pinned w_child_reset ts_init) (srun w_child_reset ss_init) w_child_reset /\
+  ~ agrees (run cfg_pinned w_child_keys ts_init) (srun w_child_keys ss_init) w_child_keys /\
+  ~ agrees (run cfg_pinned w_namespace ts_init) (srun w_namespace ss_init) w_namespace /\
+  ~ agrees (run cfg_pinned w_child_kill ts_init) (srun w_child_kill ss_init) w_child_kill /\
+  ~ agrees (run cfg_pinned w_child_direct ts_init) (srun w_child_direct ss_init) w_child_direct.
+Proof.
+  exact (conj pinned_prefix_key (conj pinned_child_reset (conj pinned_child_keys
+        (conj pinned_namespace (conj pinned_child_kill pinned_child_direct))))).
+Qed.
+Print Assumptions C08_pinned_refuted.
+
+(* ... on which the repaired code agrees with the specification *)
+Theorem C08_fixed_witnesses :
+  Forall (fun w => agrees (run cfg_fixed w ts_init) (srun w ss_init) w)
+         [w_prefix_key; w_child_reset; w_child_keys; w_namespace; w_child_kill; w_child_direct].
+Proof. exact fixed_agrees_witnesses. Qed.
+Print Assumptions C08_fixed_witnesses.
+
+(* The repaired code still violates the full statement inside the two finding classes
+   (known-findings tx-limit and direct-limit-order); the guards flag the witnesses *)
+Theorem C08_findings_refuted :
+  (~ agrees (run cfg_fixed w_tx_limit ts_init) (srun w_tx_limit ss_init) w_tx_limit /\
+   ~ agrees (run cfg_fixed w_tx_limit0 ts_init) (srun w_tx_limit0 ss_init) w_tx_limit0 /\
+   guard_free cfg_fixed w_tx_limit = false /\ guard_free cfg_fixed w_tx_limit0 = false) /\
+  (~ agrees (run cfg_fixed w_direct_order ts_init) (srun w_direct_order ss_init) w_direct_order /\
+   guard_free cfg_fixed w_direct_order = false).
+Proof. exact (conj fixed_tx_limit fixed_direct_order). Qed.
+Print Assumptions C08_findings_refuted.
